@@ -34,6 +34,7 @@ import (
 var (
 	ErrCannotMergeTypes = fmt.Errorf("cannot merge types")
 	ErrEmptyTypesList   = fmt.Errorf("types list is empty")
+	ErrNullSubschema    = fmt.Errorf("null is not a valid subschema")
 )
 
 // Schema is the root schema.
@@ -67,6 +68,16 @@ func (s *Schema) UnmarshalJSON(data []byte) error {
 
 	if unmarshSchema.Definitions == nil && legacySchema.Definitions != nil {
 		unmarshSchema.Definitions = legacySchema.Definitions
+	}
+
+	if err := checkSubschemas("$defs", unmarshSchema.Definitions); err != nil {
+		return err
+	}
+
+	if unmarshSchema.ObjectAsType != nil {
+		if err := (*Type)(unmarshSchema.ObjectAsType).checkSubschemas(); err != nil {
+			return err
+		}
 	}
 
 	*s = Schema(unmarshSchema)
@@ -261,7 +272,56 @@ func (value *Type) UnmarshalJSON(raw []byte) error {
 		obj.DependentSchemas = legacyObj.Dependencies
 	}
 
+	if err := (*Type)(&obj).checkSubschemas(); err != nil {
+		return err
+	}
+
 	*value = Type(obj)
+
+	return nil
+}
+
+// checkSubschemas rejects a JSON null where a subschema is expected: the decoder
+// leaves a nil *Type behind, which the generator cannot handle.
+func (value *Type) checkSubschemas() error {
+	for _, m := range []struct {
+		keyword    string
+		subschemas map[string]*Type
+	}{
+		{"properties", value.Properties},
+		{"patternProperties", value.PatternProperties},
+		{"$defs", value.Definitions},
+		{"dependentSchemas", value.DependentSchemas},
+	} {
+		if err := checkSubschemas(m.keyword, m.subschemas); err != nil {
+			return err
+		}
+	}
+
+	for _, l := range []struct {
+		keyword    string
+		subschemas []*Type
+	}{
+		{"allOf", value.AllOf},
+		{"anyOf", value.AnyOf},
+		{"oneOf", value.OneOf},
+	} {
+		for i, t := range l.subschemas {
+			if t == nil {
+				return fmt.Errorf("%w: %s[%d]", ErrNullSubschema, l.keyword, i)
+			}
+		}
+	}
+
+	return nil
+}
+
+func checkSubschemas(keyword string, subschemas map[string]*Type) error {
+	for name, t := range subschemas {
+		if t == nil {
+			return fmt.Errorf("%w: %s %q", ErrNullSubschema, keyword, name)
+		}
+	}
 
 	return nil
 }
